@@ -62,7 +62,7 @@ are a prefix of the workload -/
 structure Inv3 (N scale F : Nat) (flow size : Int → Nat) (cfg : WfqCfg ℚ) (d1 L : Nat) (arrivals : List (ℚ × Int)) (s : KS) (a : A) :
     Prop where
   i : Inv N scale F flow size cfg d1 L s a
-  o : ∃ o, orun F flow size cfg oInit (histOf s.trace) = some o ∧ OInv N scale size F flow cfg d1 L a s.now o
+  o : ∃ o, orun F flow size cfg oInit (histOf s.trace) = some o ∧ OInv flow size cfg a s.now o
   p : PInv arrivals a
 
 theorem entries_eid (hk : KInv N scale size cfg.rate F s a) : ∀ x ∈ a.entries, x.eid < s.eid :=
